@@ -58,6 +58,7 @@ func TestCheck(t *testing.T) {
 	r.Floor("terminated-after-bound-expired", 3)
 	r.Floor("non-ok-completion-reported", 5)
 	r.Floor("real-loop-cases", 3)
+	r.Floor("real-loop-error-after-shutdown", 3)
 	r.Floor("execute-with-trace-context", 20)
 	r.Floor("preempted-action-with-trace-context", 10)
 	// Shutdown beginning strictly inside one Run iteration.
